@@ -585,7 +585,7 @@ impl Check for BuilderCheck {
 
     fn budget(_id: &str, tier: Tier) -> Budget {
         match tier {
-            Tier::Quick => Budget { cases: 12_000, max_bytes: 64 },
+            Tier::Quick => Budget { cases: 30_000, max_bytes: 64 },
             Tier::Thorough => Budget { cases: 200_000, max_bytes: 64 },
         }
     }
